@@ -628,7 +628,11 @@ def part_counting(ctx, o):
                        node=ln, file=c.mod.path, path=res.path_lines(g.exit, st))
         for s in inv.attr_stores(P, '_received_parts_count'):
             o.count()
-            if s.cls is not c:
+            # another class with a field of the same name of its own (`self._received_parts_count` of a Buffer that is neither a Sink nor a base
+            # of Sink) is not the sink's counter
+            own_field_elsewhere = s.cls is not None and s.cls is not c and c not in s.cls.mro and s.cls not in c.mro and \
+                isinstance(s.node, ast.Attribute) and isinstance(s.node.value, ast.Name) and s.node.value.id == 'self'
+            if s.cls is not c and not own_field_elsewhere:
                 o.fail(P, s.ctx, s.stmt, 'the sink counter is written outside class Sink', file=s.mod.path, line=s.line)
         o.count()
         pr = P.lookup_prop(c, 'received_parts_count', 'get')
